@@ -74,14 +74,46 @@ func (i *InclusiveRangeIterator) Next(context ValueIteratorContext) Value {
 	}
 
 	// Update the next value.
-	nextValueToReturn, ok := valueToReturn.Plus(context, i.step).(IntegerValue)
+	i.next = i.advance(valueToReturn, context)
+
+	return valueToReturn
+}
+
+// advance returns the element following the given element, or nil if the given element is the last one.
+func (i *InclusiveRangeIterator) advance(
+	element IntegerValue,
+	context ValueIteratorContext,
+) (next IntegerValue) {
+
+	// The following element might not be representable in the element type,
+	// if the range ends close to the minimum or maximum of the type.
+	// In that case it is also beyond the end of the range, so the sequence ends.
+	defer func() {
+		if r := recover(); r != nil {
+			switch r.(type) {
+			case *OverflowError, *UnderflowError:
+				next = nil
+			default:
+				panic(r)
+			}
+		}
+	}()
+
+	nextValue, ok := element.Plus(context, i.step).(IntegerValue)
 	if !ok {
 		panic(errors.NewUnreachableError())
 	}
 
-	i.next = i.validate(nextValueToReturn, context)
+	// Word types wrap around instead of failing
+	if i.stepNegative {
+		if nextValue.Greater(context, element) {
+			return nil
+		}
+	} else if nextValue.Less(context, element) {
+		return nil
+	}
 
-	return valueToReturn
+	return i.validate(nextValue, context)
 }
 
 func (i *InclusiveRangeIterator) validate(
